@@ -48,9 +48,22 @@ def ranking(r):
     return [(h["k"], h.score) for h in r]
 
 
-def check_topn(q, desc, ks=(1, 2, 3), fast=False):
+_R = {}
+
+
+def reverse_searchers():
+    """ReverseWeighting (scores negated: the exhaustive ranking is worst-first) on the multi-segment layouts"""
+    if not _R:
+        for name in ("del", "three"):
+            ix = C.build_layout(name)
+            for wn, w in (("Reverse(BM25F)", scoring.ReverseWeighting(scoring.BM25F())), ("Reverse(TF_IDF)", scoring.ReverseWeighting(scoring.TF_IDF()))):
+                _R[(name, wn)] = ix.searcher(weighting=w)
+    return _R
+
+
+def check_topn(q, desc, ks=(1, 2, 3), fast=False, S=None):
     engaged = False
-    for (lname, wn), s in searchers().items():
+    for (lname, wn), s in (S or searchers()).items():
         if fast and lname == "one":
             continue         # the nested harnesses use the two multi-segment layouts with deletions
         variants = [("plain", {}),
@@ -163,6 +176,23 @@ def c05_boosted(op: int, a: int, b: int, bc: int) -> Optional[str]:
     with notrace():
         r, engaged = run_boosted(SCORED_OPS[pick(op, 8)], BL[pick(a, 6)], BL[pick(b, 6)], pick(bc, 3))
     tick(engaged)
+    return r
+
+
+@h(bounds="op(a, b) under ReverseWeighting(BM25F) and ReverseWeighting(TF_IDF) (negative scores): 8 operators, a, b over 6 leaves; k in 1..3; layouts del/three; "
+          "plain and terms=True; pruning must not engage (a reversed scorer has no upper bound), so only the result is asserted",
+   funcs=FUNCS + ["whoosh.scoring.ReverseWeighting"], examples=[dict(op=1, a=0, b=1)], outside=OUT, timeout=dict(quick=900, thorough=1800))
+def c05_reverse(op: int, a: int, b: int) -> Optional[str]:
+    """
+    pre: 0 <= op < 8 and 0 <= a < 6 and 0 <= b < 6
+    post: _ is None
+    """
+    with notrace():
+        o = C.OPS[SCORED_OPS[pick(op, 8)]]
+        la, lb = LEAVES[BL[pick(a, 6)]], LEAVES[BL[pick(b, 6)]]
+        r = check_topn(o[1](la[1](), lb[1]()), "%s(%s, %s)" % (o[0], la[0], lb[0]), fast=True, S=reverse_searchers())
+        r = r[0] if isinstance(r, tuple) else r
+    tick(True)
     return r
 
 
